@@ -400,16 +400,74 @@ def check_conversion_numbers(x, z, to, cur, where, m, fail, counts):
             return
 
 
+REFUSING = {"add": lambda a, b: a + b, "sub": lambda a, b: a - b, "div_food": lambda a, b: a / b,
+            "min_elementwise": lambda a, b: Food.min_elementwise(a, b),
+            "min_elementwise (swapped)": lambda a, b: Food.min_elementwise(b, a),
+            "get_remaining_food_needed_and_amount_used (demand)": lambda a, b: Food.get_remaining_food_needed_and_amount_used(a, b, 0.5),
+            "get_remaining_food_needed_and_amount_used (resource)": lambda a, b: Food.get_remaining_food_needed_and_amount_used(b, a, 0.5),
+            "__eq__": lambda a, b: a == b, "__ne__": lambda a, b: a != b,
+            "all_greater_than": lambda a, b: a.all_greater_than(b), "all_less_than": lambda a, b: a.all_less_than(b),
+            "any_greater_than": lambda a, b: a.any_greater_than(b), "any_less_than": lambda a, b: a.any_less_than(b),
+            "all_greater_than_or_equal_to": lambda a, b: a.all_greater_than_or_equal_to(b),
+            "all_less_than_or_equal_to": lambda a, b: a.all_less_than_or_equal_to(b),
+            "any_greater_than_or_equal_to": lambda a, b: a.any_greater_than_or_equal_to(b),
+            "any_less_than_or_equal_to": lambda a, b: a.any_less_than_or_equal_to(b)}
+# as written, any_less_than_or_equal_to on a series compares without looking at the units (recorded as a note)
+NOT_REFUSING_AS_WRITTEN = {("any_less_than_or_equal_to", True)}
+
+
+def audit_one_label_differs(fails, counts, settings, only=None):
+    """(e') operands whose labels differ in exactly ONE of the three positions are refused by every binary operation,
+    single values and series, under all four flag settings"""
+    notes = {}
+    for fl in FLAGS:
+        I.set_flags(settings, fl[0], fl[1])
+        for mon in (False, True):
+            for sfx in ((EACH,) if mon else ("", PER)):
+                base = ["billion kcals" + sfx, "thousand tons" + sfx, "thousand tons" + sfx]
+                for pos in range(3):
+                    other = list(base)
+                    other[pos] = I.other_unit(base[pos], pos)
+
+                    def mk(labs, a):
+                        if mon:
+                            return Food(np.array([a, 2 * a]), np.array([a / 2, a]), np.array([a / 4, a / 2]), *labs)
+                        return Food(a, a / 2, a / 4, *labs)
+                    for name, fn in REFUSING.items():
+                        if only and name != only:
+                            continue
+                        counts["one_label_differs_cases"] += 1
+                        x, y = mk(base, 8.0), mk(other, 6.0)
+                        try:
+                            with quiet():
+                                fn(x, y)
+                            refused = False
+                        except BaseException:
+                            refused = True
+                        if refused:
+                            continue
+                        if (name, mon) in NOT_REFUSING_AS_WRITTEN:
+                            notes[name] = notes.get(name, 0) + 1
+                            continue
+                        fails.append({"key": "C11:no-refusal@Food." + name.split(" ")[0] + ":one-label-differs",
+                                      "what": f"{name} accepted {'series' if mon else 'single values'} labelled {base} and {other} "
+                                              f"(include_fat={fl[0]}, include_protein={fl[1]})",
+                                      "case": {"type": "one_label", "name": name, "flags": list(fl)}})
+    return notes
+
+
 def run(payload):
     settings = payload["settings"]
     fails = []
     counts = {k: 0 for k in ("steps", "accepted", "ctor_cases", "ctor_rejected", "unit_check_cases",
                              "unit_mismatch_cases", "ratio_side_cases", "wf_in_cases", "label_table_cases", "pred_pairs", "index_cases", "settings_probes",
-                             "conversion_number_cases")}
+                             "conversion_number_cases", "one_label_differs_cases")}
     if "replay" in payload:
         c = payload["replay"]
         if c["type"] == "seq":
             audit_seq(c["seq"], tuple(c["flags"]), fails, counts, settings)
+        elif c["type"] == "one_label":
+            audit_one_label_differs(fails, counts, settings, only=c["name"])
         elif c["type"] == "ctor":
             I.set_flags(settings, True, True)
             audit_ctor_result(c["args"], I.build(c["args"]), fails, counts)
@@ -422,6 +480,7 @@ def run(payload):
     grid = [-1.5, 0.0, 2.0] if payload.get("grid") == "quick" else [-1.5, 0.0, 0.5, 2.0]
     audit_preds(grid, fails, counts, settings)
     audit_pred_boundaries(fails, counts, settings)
+    unit_notes = audit_one_label_differs(fails, counts, settings)
     # directed conversions: every pair of DIFFERENT fat / protein target units, every source form
     kc = ["billion kcals", "billion people fed", "percent people fed", "million dry caloric tons", "kcals per person per day"]
     fp = ["thousand tons", "million tons", "billion people fed", "percent people fed", "effective kcals per person per day",
@@ -485,6 +544,7 @@ def run(payload):
         if per[f["key"]] <= 3:
             out.append(f)
     counts["failures_per_key"] = per
+    counts["not_refusing_as_written"] = unit_notes
     return {"failures": out, "counts": counts, "distinct": min(counts["accepted"] + counts["pred_pairs"], 100000)}
 
 
